@@ -104,8 +104,24 @@ def enum_names(mod, enum, only_xml=True):
 
 # ---- comparators ---------------------------------------------------------------------------------------------------------------------
 
+def _is_enum(v):
+    return hasattr(v, "name") and hasattr(v, "value") and not isinstance(v, bool)
+
+
 def eq_exact(a, b):
-    return a == b and (a is None) == (b is None)
+    """Equal AND of the same kind: an int-valued enumeration member compares equal to True / 1 in Python (MSO_UNDERLINE.WORDS == True),
+    which is not "reads back what was assigned"."""
+    if (a is None) != (b is None) or isinstance(a, bool) != isinstance(b, bool) or _is_enum(a) != _is_enum(b):
+        return False
+    return a == b
+
+
+def eq_underline(a, b):
+    # documented: True <-> SINGLE_LINE, False <-> NONE
+    def n(v):
+        nm = getattr(v, "name", None)
+        return True if nm == "SINGLE_LINE" else (False if nm == "NONE" else v)
+    return eq_exact(n(a), n(b))
 
 
 def eq_tol(q):
@@ -187,8 +203,8 @@ def build_catalog():
     entry("font.size", "font", "size", lambda r: r.choice([PT(1), PT(12), PT(10.5), PT(4000), PT(18), PT(0.01 * r.randint(100, 400000)), NONE]),
           [PT(0.99), PT(4000.01), PT(-1)], eq_tol(CPT_Q), none="none")
     entry("font.name", "font", "name", lambda r: r.choice([S("Arial"), S("Calibri"), S(xml_text(r, 12, False)), NONE]), [], none="none")
-    entry("font.underline", "font", "underline", [B(True), B(False), NONE] + [E("text", "MSO_UNDERLINE", n) for n in ("DOUBLE_LINE", "WAVY_HEAVY_LINE", "DOTTED_LINE", "HEAVY_LINE")],
-          [S("single")], none="none")
+    entry("font.underline", "font", "underline", [B(True), B(False), NONE] + [E("text", "MSO_UNDERLINE", n) for n in enum_names("text", "MSO_UNDERLINE") if n != "MIXED"],
+          [S("single")], eq=eq_underline, none="none")
     entry("font.language_id", "font", "language_id", [E("lang", "MSO_LANGUAGE_ID", n) for n in ("ENGLISH_US", "FRENCH", "JAPANESE", "GERMAN")] + [NONE], [S("en-US")], none="LANG_NONE")
     # colour (shape fill fore colour) - one dependency group
     entry("color.rgb", "color", "rgb", lambda r: {"k": "rgb", "v": "%06X" % r.randint(0, 0xFFFFFF)}, [S("FF0000"), I(0xFF0000), NONE], group="color")
@@ -261,6 +277,9 @@ def build_catalog():
     entry("barseries.invert_if_negative", "barseries", "invert_if_negative", [B(True), B(False)])
     entry("lineseries.smooth", "lineseries", "smooth", [B(True), B(False)])
     entry("marker.size", "marker", "size", [I(2), I(5), I(72), I(30), NONE], [I(1), I(73), S("x")], none="none", group="marker-size")
+    # the same on single POINTS of a series (c:dPt elements, created on demand in whatever order the caller touches the points)
+    entry("pointmarker.size", "pointmarker", "size", [I(2), I(5), I(72), I(30), NONE], [I(1), I(73), S("x")], none="none", group="pointmarker-size")
+    entry("pointmarker.style", "pointmarker", "style", [E("chart", "XL_MARKER_STYLE", n) for n in ("CIRCLE", "DASH", "DIAMOND", "SQUARE", "STAR", "X")] + [NONE], [S("x")], none="none", group="pointmarker-style")
     entry("marker.style", "marker", "style", [E("chart", "XL_MARKER_STYLE", n) for n in ("CIRCLE", "DASH", "DIAMOND", "SQUARE", "STAR", "X", "NONE", "AUTOMATIC")] + [NONE], [S("x")], none="none", group="marker-style")
 
 
@@ -444,6 +463,9 @@ def locate(prs, obj, a):
         return list(_chart_of(sl, "BarPlot").plots)[0].series[a.get("i", 0) % 2]
     if obj == "lineseries":
         return list(_chart_of(sl, "LinePlot").plots)[0].series[a.get("i", 0) % 2]
+    if obj == "pointmarker":
+        pts = list(_chart_of(sl, "LinePlot").plots)[0].series[1].points
+        return pts[(2 - a.get("i", 0)) % 3].marker     # object 0 is the LAST point, object 1 the middle one: touched in descending order too
     if obj == "marker":
         return list(_chart_of(sl, "LinePlot").plots)[0].series[a.get("i", 0) % 2].marker
     raise O.Skip("unknown object kind %s" % obj)
@@ -559,7 +581,7 @@ def _set(w, deck, a):
         v = dec(a["v"])
     except (ValueError, KeyError, AttributeError):
         raise O.Skip("value spec not decodable here")
-    key = "%s|%d" % (a["entry"], a.get("i", 0) if e["obj"] in ("shape", "p", "font", "cell", "col", "row", "barseries", "lineseries", "marker", "gradstop", "cxn", "dlbl", "runlink", "clicklink", "tf", "pic", "adj") else 0)
+    key = "%s|%d" % (a["entry"], a.get("i", 0) if e["obj"] in ("shape", "p", "font", "cell", "col", "row", "barseries", "lineseries", "marker", "gradstop", "cxn", "dlbl", "runlink", "clicklink", "tf", "pic", "adj", "pointmarker") else 0)
     before_self = norm(sget(o, e))
     others = read_all(o, e["obj"], e["group"])
     peer_a = _peer_args(deck.prs, e, a)
@@ -657,7 +679,7 @@ def _set_unjudged(w, deck, a, e):
     w.stats.hit("catalog_sets")
 
 
-PEERABLE = ("shape", "adj", "cxn", "cell", "col", "row", "barseries", "lineseries", "marker", "gradstop", "dlbl", "clicklink", "p", "font", "runlink")
+PEERABLE = ("pointmarker", "shape", "adj", "cxn", "cell", "col", "row", "barseries", "lineseries", "marker", "gradstop", "dlbl", "clicklink", "p", "font", "runlink")
 
 
 def _peer_args(prs, e, a):
@@ -734,6 +756,7 @@ def gen_trace(seed: int, tier: str) -> dict:
     n = r.randint(10, 40) if tier == "quick" else r.randint(25, 120)
     events, sw = common.gen_history(seed, fault_rate=common.fault_arm(seed), n_events=n, families=["c09"], always=("c09",), ckpt=0.05, reopen=0.06, restart=0.03,
                                     observe=0.01, jump=0.0, fork=0.03, warmup=False)
+    common.rewritten_between_sessions(seed, events, hows=("bool_words",))
     pre = [dict(e, dt=1.0) for e in kit_events()] + [{"op": "checkpoint", "sink": "seekable", "dt": 1.0}]  # the kit is durable
     return {"property": ID, "seed": seed, "tier": tier, "config": {"max_slides": 40, "max_shapes": 80},
             "start": [_start(S("start"))], "events": pre + events}
